@@ -65,10 +65,12 @@ type C10Doc struct {
 	} `json:"in"`
 	Esc   string `json:"esc"`
 	UPPER string
-	Q     int     `json:"q,string"`
-	QU    uint16  `json:"qu,string"`
-	QF    float64 `json:"qf,string"`
-	QB    bool    `json:"qb,string"`
+	Q     int          `json:"q,string"`
+	QU    uint16       `json:"qu,string"`
+	QF    float64      `json:"qf,string"`
+	QB    bool         `json:"qb,string"`
+	QN    json.Number  `json:"qn,string"`
+	PQN   *json.Number `json:"pqn,string"`
 }
 
 const (
@@ -97,6 +99,8 @@ type c10Op struct {
 	dest    reflect.Value
 	src     reflect.Value // the value the document was rendered from
 	users   *[]*c10Op     // every decode that was given this destination so far
+	byValue bool          // encode ops: pass the value itself instead of a pointer to it
+	encOpts int           // Encoder ops: bit 0 SetEscapeHTML(false), bit 1 SetAppendNewline(false), bit 2 SetIndent
 	// decoder
 	stream  []byte
 	script  []int
@@ -199,6 +203,12 @@ func collectLeaves(v reflect.Value, path string, out *[]leaf, depth int) {
 		}
 	}
 }
+
+// C10OwnBytes implements json.Marshaler by returning its own storage (legal: the
+// library must treat what MarshalJSON returns as lent memory).
+type C10OwnBytes struct{ Doc []byte }
+
+func (c C10OwnBytes) MarshalJSON() ([]byte, error) { return c.Doc, nil }
 
 var c10LeafTypes = []reflect.Type{reflect.TypeOf(json.RawMessage(nil)), reflect.TypeOf(""), reflect.TypeOf(json.Number("")), reflect.TypeOf([]byte(nil)),
 	reflect.TypeOf((*any)(nil)).Elem(), reflect.TypeOf(map[string]string(nil)), reflect.TypeOf([]string(nil)), reflect.TypeOf([]json.RawMessage(nil)), reflect.TypeOf(map[string]json.RawMessage(nil))}
@@ -348,6 +358,28 @@ func c10GenTask(r *core.Run, t *tape.Tape) []*c10Op {
 		case c10Marshal, c10Encoder:
 			op.ty = c10Types(t)
 			op.val, op.valCopy = c10Value(t, op.ty)
+			if t.Chance(1, 5) {
+				// a large, already compact and HTML-safe raw document handed to the
+				// encoder as json.RawMessage or through a MarshalJSON method
+				n := []int{3000, 4090, 4096, 4100, 5000, 9000}[t.Intn(6)]
+				mk := func() []byte {
+					b := []byte(`{"k":"`)
+					for len(b) < n-2 {
+						b = append(b, byte('a'+len(b)%26))
+					}
+					return append(b, '"', '}')
+				}
+				if t.Bool() {
+					op.ty = reflect.TypeOf(json.RawMessage(nil))
+					a, c := json.RawMessage(mk()), json.RawMessage(mk())
+					op.val, op.valCopy = reflect.ValueOf(&a), reflect.ValueOf(&c)
+				} else {
+					op.ty = reflect.TypeOf(C10OwnBytes{})
+					op.val, op.valCopy = reflect.ValueOf(&C10OwnBytes{Doc: mk()}), reflect.ValueOf(&C10OwnBytes{Doc: mk()})
+				}
+				op.byValue = t.Bool()
+			}
+			op.encOpts = t.Intn(8)
 		case c10Unmarshal, c10Parse, c10Tokenizer:
 			op.ty = c10Types(t)
 			op.reuse = -1
@@ -445,6 +477,29 @@ func (w *simWriter) Write(p []byte) (int, error) {
 	return len(p), nil
 }
 
+func (op *c10Op) arg() any {
+	if op.byValue {
+		return op.val.Elem().Interface()
+	}
+	return op.val.Interface()
+}
+
+// encoderInputsIntact re-compares every value that was handed to Marshal /
+// Encode so far with its pristine twin: memory lent to an encoder must still
+// be untouched after any number of later calls.
+func (tr *c10TaskRes) encoderInputsIntact(ops []*c10Op, upto int, when string) {
+	for k := 0; k <= upto && k < len(ops); k++ {
+		op := ops[k]
+		if (op.kind == c10Marshal || op.kind == c10Encoder) && op.val.IsValid() {
+			tr.probes["encoder-inputs-checked-unchanged"]++
+			if !reflect.DeepEqual(op.val.Interface(), op.valCopy.Interface()) {
+				tr.failf("encoder-input-modified", "%s: the value given to %s (op #%d, %s) is no longer what the caller put there: the library wrote to memory it was lent", when, c10OpNames[op.kind], k, clipStr(op.ty.String(), 60))
+				return
+			}
+		}
+	}
+}
+
 func (tr *c10TaskRes) failf(key, format string, a ...any) {
 	if tr.fail == "" {
 		tr.failKey = key
@@ -529,7 +584,7 @@ func c10Exec(task int, ops []*c10Op, tr *c10TaskRes) {
 		tr.probes["ops"]++
 		switch op.kind {
 		case c10Marshal:
-			b, err := json.Marshal(op.val.Interface())
+			b, err := json.Marshal(op.arg())
 			if err == nil && len(b) > 0 {
 				tr.leaves = append(tr.leaves, leaf{view: b, snap: append([]byte(nil), b...), kind: leafMarshal, op: j, path: "Marshal()"})
 			}
@@ -540,8 +595,17 @@ func c10Exec(task int, ops []*c10Op, tr *c10TaskRes) {
 		case c10Encoder:
 			w := &simWriter{}
 			enc := json.NewEncoder(w)
+			if op.encOpts&1 != 0 {
+				enc.SetEscapeHTML(false)
+			}
+			if op.encOpts&2 != 0 {
+				enc.SetAppendNewline(false)
+			}
+			if op.encOpts&4 != 0 {
+				enc.SetIndent(">", " ")
+			}
 			for k := 0; k < 2; k++ {
-				enc.Encode(op.val.Interface())
+				enc.Encode(op.arg())
 			}
 			tr.probes["writer-buffers-checked-stable-during-write"] += int64(w.writes)
 			if w.bad != "" {
@@ -700,6 +764,9 @@ func c10Exec(task int, ops []*c10Op, tr *c10TaskRes) {
 				tr.failf(key, "%s", msg)
 			}
 		}
+		if tr.fail == "" {
+			tr.encoderInputsIntact(ops, j, "after "+c10OpNames[op.kind])
+		}
 		if tr.fail != "" {
 			return
 		}
@@ -818,6 +885,11 @@ func runC10(r *core.Run) {
 					return
 				}
 			}
+		}
+		results[i].encoderInputsIntact(tasks[i], len(tasks[i]), "end of run")
+		if results[i].fail != "" {
+			r.Fail("ownership", results[i].failKey, "task %d: %s", i, results[i].fail)
+			return
 		}
 		n := 0
 		for k := range results[i].leaves {
